@@ -14,6 +14,7 @@ fn main() {
     let start: u64 = args.get(4).and_then(|s| s.parse().ok()).unwrap_or(0);
     mlv::runner::install_quiet_panic_hook();
     let mut st = Stats::default();
+    println!("MIRI pointer width = {} bits", usize::BITS);
     if id == "L32" {
         // 32-bit-limb stage (run with --target i686-unknown-linux-gnu): the crate then uses u32 limbs, its
         // [u32; 10] copy of 5^135 and 9-digit chunks.  (1) every power constant, (2) generated boundary
@@ -60,6 +61,43 @@ fn main() {
                 std::process::exit(1);
             }
         }
+        return;
+    }
+    if id == "L32F" {
+        // file-based 32-bit-limb stage (run with --target i686-unknown-linux-gnu): inputs and their expected bits
+        // were produced natively (generator families + exact oracle); here they are parsed with 32-bit limbs in
+        // the default, compact, alloc and no_std+compact configurations and compared
+        let file = args.get(2).cloned().unwrap_or_default();
+        let text = std::fs::read_to_string(&file).unwrap_or_else(|e| panic!("cannot read {file}: {e}"));
+        let mut n = 0;
+        for (i, line) in text.lines().enumerate() {
+            let f: Vec<&str> = line.split(' ').collect();
+            if f.len() != 6 {
+                continue;
+            }
+            let fmt = if f[0] == "f32" { mlv::oracle::Fmt::F32 } else { mlv::oracle::Fmt::F64 };
+            let int = if f[1] == "-" { Vec::new() } else { f[1].as_bytes().to_vec() };
+            let frac = if f[2] == "-" { Vec::new() } else { f[2].as_bytes().to_vec() };
+            let exp: i32 = f[3].parse().unwrap();
+            let want = u64::from_str_radix(f[4].trim_start_matches("0x"), 16).unwrap();
+            println!("MIRI-CASE L32F {i} {} {} ({} digits)", f[0], f[5], int.len() + frac.len());
+            for ci in [0usize, 1, 2, 6] {
+                let cfg = &mlv::cfgs::CFGS[ci];
+                match mlv::runner::catch(|| cfg.parse(fmt, &int, &frac, exp)) {
+                    Ok(bits) if bits == want => {}
+                    Ok(bits) => {
+                        println!("MIRI-VIOLATION L32F {i}: config {} with 32-bit limbs returned {} for line {i} ({} {}.{}e{}), expected {}", cfg.name, fmt.hex(bits), f[0], mlv::gen::abbreviate(&int), mlv::gen::abbreviate(&frac), exp, fmt.hex(want));
+                        std::process::exit(1);
+                    }
+                    Err(m) => {
+                        println!("MIRI-VIOLATION L32F {i}: config {} with 32-bit limbs panicked on valid input (line {i}): {m}", cfg.name);
+                        std::process::exit(1);
+                    }
+                }
+            }
+            n += 1;
+        }
+        println!("MIRI-OK L32F cases={n} file={file}");
         return;
     }
     if id == "C08T" {
